@@ -1,6 +1,7 @@
 import ServiceModel.Proofs.Reachable
 import ServiceModel.Proofs.Stable
 import ServiceModel.Proofs.Valid
+import ServiceModel.Proofs.RestartStable
 /-!
 # C15 — Definitions and bindings are unique, stable and consistently indexed
 -/
@@ -74,5 +75,29 @@ theorem stored_records_valid {s : State} (hr : Reachable cfg p h0 t0 s) :
     (∀ n d, Map.get s.defs n = some d → defValid n d = true) ∧
     (∀ k b, Map.get s.bindings k = some b → bindingValid k b = true) :=
   ⟨(recOK hr).defs, (recOK hr).binds⟩
+
+/-! ### the same over chains that go through zero-height restarts -/
+/-- Over every continuation of a chain by well-formed operations **and any number of zero-height restarts**
+    (`ContinuesR`), from every state such a chain reaches: a definition stays the very same record, a binding stays
+    with its service, provider and owner, and a provider keeps its owner. (A restart is not an operation of `after`;
+    it rebuilds the store from the exported genesis, and gives back the same records: `C19.restart_gives_back_the_same_records`.) -/
+theorem stable_across_restarts (hc : CfgOK cfg p) {s s' : State} (hr : ReachableR cfg p h0 t0 s)
+    (hcont : ContinuesR (fun _ => True) s s') :
+    (∀ n d, Map.get s.defs n = some d → Map.get s'.defs n = some d) ∧
+    (∀ k b, Map.get s.bindings k = some b → ∃ b', Map.get s'.bindings k = some b' ∧ b'.owner = b.owner) ∧
+    (∀ pv o, Map.get s.owner pv = some o → Map.get s'.owner pv = some o) :=
+  let h := continuesR_stable hc hr hcont
+  ⟨h.defs, h.bind, h.owner⟩
+
+/-- The indexes, the price terms and the validity of the stored records hold in every state of a chain with restarts. -/
+theorem indexes_and_terms_across_restarts (hc : CfgOK cfg p) {s : State} (hr : ReachableR cfg p h0 t0 s) :
+    (∀ o pv, (o, pv) ∈ s.ownerProv ↔ Map.get s.owner pv = some o) ∧
+    (∀ o svc pv, (o, svc, pv) ∈ s.ownerBind ↔ ∃ b, Map.get s.bindings (svc, pv) = some b ∧ b.owner = o) ∧
+    (∀ k b, Map.get s.bindings k = some b →
+      ∃ pr, Map.get s.pricing k = some pr ∧ parsePricing b.text = .ok pr ∧ validPricing pr = true) ∧
+    (∀ n d, Map.get s.defs n = some d → defValid n d = true) ∧
+    (∀ k b, Map.get s.bindings k = some b → bindingValid k b = true) :=
+  let h := reachableR_invAll hc hr
+  ⟨h.inv.b.provIdx, h.inv.b.bindIdx, h.inv.b.priced, h.recs.defs, h.recs.binds⟩
 
 end SM.C15
